@@ -518,3 +518,33 @@ func Scratch(prefix string) (string, func()) {
 	}
 	return d, func() { _ = os.RemoveAll(d) }
 }
+
+// Fuzz is the body of the native fuzz target of a property package (thorough tier only): the fuzzer's
+// bytes drive the same rapid generators, the same Prop judges the case, and a violation is written to
+// VERIF_OUT/violation.json in the same format the rapid runner uses.
+func Fuzz[C any](f *testing.F, spec Spec[C]) {
+	known := loadKnown(spec.ID)
+	out := os.Getenv("VERIF_OUT")
+	f.Fuzz(rapid.MakeFuzz(func(rt *rapid.T) {
+		c := spec.Gen.Draw(rt, "case")
+		x := &Ctx{}
+		v := safeProp(spec.Prop, c, x)
+		if v == nil {
+			return
+		}
+		if _, ok := knownMatch(known, v.Fingerprint); ok {
+			return
+		}
+		cj, _ := json.Marshal(c)
+		if v.ReplayCase != nil {
+			if b, err := json.Marshal(v.ReplayCase); err == nil {
+				cj = b
+			}
+		}
+		if out != "" {
+			vb, _ := json.MarshalIndent(violationFile{Property: spec.ID, Fingerprint: v.Fingerprint, Msg: v.Msg, Case: cj}, "", " ")
+			_ = os.WriteFile(filepath.Join(out, "violation.json"), vb, 0o644)
+		}
+		rt.Fatalf("%s", v)
+	}))
+}
